@@ -1,12 +1,14 @@
 import os, sys, time
 sys.path.insert(0, os.path.join(os.environ.get('VERIF_ROOT', '/verif'), 'engine', 'rt'))
 import ptgfam, ptgrun
+sys.path.insert(0, os.path.join(os.environ.get('VERIF_ROOT', '/verif'), 'harness', 'C02'))
+import il
 
 META = dict(
-    engine='rt',
-    technique='bounded-exhaustive PTG-IR program family x exhaustive task-level schedule enumeration (harness scheduler, in-process DFS) x exhaustive configuration box (11 schedulers x threads x 2 dependency back-ends x mask/counter dependency modes x start-up chunking); reference interpreter gives predecessor sets, the value of every input flow and the final collection contents',
-    level_text='For every program of an enumerated family of dependency shapes (RW chains, ternary routing, range fan-out, CTL gather, multi-flow fan-in, collection inputs mixed with task inputs, WRITE/NEW/NULL flows, reduction tree, 2-D wavefront, strided ranges; start-up condition grid; both dependency back-ends; mask and counter modes) every task body starts only after all predecessors named by its active input deps completed, reads on every input flow exactly the value the reference interpreter predicts, and the final collection contents equal the reference: under EVERY task-level order for the small variants (deviation-bounded above) and free-running over the whole configuration box.',
-    level_note='Programs are restricted to those PaRSEC defines (interpreter refuses unordered conflicting accesses to a copy, NULL forwarding, mismatched in/out deps). On the non-distributed hk-shm flavour the generated complete_hook does not copy a flow back to a collection element it did not come from (code under #if DISTRIBUTED), so write-backs are in-place only. Task bodies atomic at the schedule level; instruction-level races of the readiness test / repo reclamation are C07 / C25.',
+    engine='rt+cosched',
+    technique='bounded-exhaustive PTG-IR program family x exhaustive task-level schedule enumeration (harness scheduler, in-process DFS) x exhaustive configuration box (11 schedulers x threads x 2 dependency back-ends x mask/counter dependency modes x start-up chunking); reference interpreter gives predecessor sets, the value of every input flow and the final collection contents; plus (legs il-*) preemption-bounded exhaustive INSTRUCTION-level schedule enumeration (cosched) of two execution streams running the real generated code of five small join / fan-out / chain / chunked-start-up taskpools on both dependency back-ends',
+    level_text='For every program of an enumerated family of dependency shapes (RW chains, ternary routing, range fan-out, CTL gather, multi-flow fan-in, collection inputs mixed with task inputs, WRITE/NEW/NULL flows, reduction tree, 2-D wavefront, strided ranges; start-up condition grid; both dependency back-ends; mask and counter modes) every task body starts only after all predecessors named by its active input deps completed, reads on every input flow exactly the value the reference interpreter predicts, and the final collection contents equal the reference: under EVERY task-level order for the small variants (deviation-bounded above) and free-running over the whole configuration box. Legs il-*: for five 3-4 task programs (two producers joined in mask mode, CTL gather in counter mode, fan-out 2 sharing one repo entry, RW chain with a side reader, chunked start-up with a join) x 2 back-ends, every interleaving of stream 0 (parsec_context_add_taskpool + parsec_context_wait) and stream 1 (worker loop) with <= 1 preemption (quick; <= 2 for the join shapes; thorough <= 2 everywhere, <= 3 for the smallest join) at instrumented accesses to the taskpool counters, dependency tables, repositories and entries, scheduler queue: same oracle plus exactly-once execution, termination callback once and last, no repo entry leaked or reclaimed twice.',
+    level_note='Programs are restricted to those PaRSEC defines (interpreter refuses unordered conflicting accesses to a copy, NULL forwarding, mismatched in/out deps). On the non-distributed hk-shm flavour the generated complete_hook does not copy a flow back to a collection element it did not come from (code under #if DISTRIBUTED), so write-backs are in-place only. Task bodies atomic at the schedule level; instruction-level races of the readiness test / repo reclamation are C07 / C25 and, on whole taskpools, the il legs (sequential consistency, 2 streams, harness FIFO scheduler, bounds as stated).',
 )
 RULE = ("programs: explicit enumeration (ptgfam.c02_family), validated by the reference interpreter; hsched leg: DFS over every choice of the next ready task for variants with <= K instances, "
         "deviation-bounded DFS above; in every run every body checks predecessor completion, the value on each input flow and NULL-ness, the driver checks final collection contents; "
@@ -14,7 +16,7 @@ RULE = ("programs: explicit enumeration (ptgfam.c02_family), validated by the re
 ORACLE = 2 | 4 | 8
 
 
-def check(ctx):
+def task_level_legs(ctx):
     quick = ctx.tier == 'quick'
     progs, refused = ptgfam.c02_family(ctx.tier)
     t0 = time.time()
@@ -34,10 +36,29 @@ def check(ctx):
         R.run_jobs(kn, 'recorded-findings', stop_on_violation=False)
     ctx.notes += R.notes
     R.cleanup()
-    return ctx.finish(RULE, ['task bodies and runtime actions atomic at the task level (primitives: E1 checks C07/C25)',
+
+
+def check(ctx):
+    import time
+    from concurrent.futures import ThreadPoolExecutor
+    # the il executables (ptgpp + instrumented cc) are built in the background while the task-level legs run
+    pool = ThreadPoolExecutor(1)
+    t2 = time.time()
+    fut = pool.submit(il.build, ctx)
+    if not os.environ.get('VERIF_IL_ONLY'):          # debugging aid: VERIF_IL_ONLY=1 runs the il legs alone (no evidence written)
+        task_level_legs(ctx)
+    else:
+        os.environ.setdefault('VERIF_NO_EVIDENCE', '1')
+    B = fut.result()
+    ctx.notes.append('il legs: executables (ptgpp + instrumented cc, 5 programs x 2 back-ends) ready %.1fs after the start of the check' % (time.time() - t2))
+    if not ctx.violations:
+        il.run(ctx, B)
+    return ctx.finish(RULE + '; ' + il.RULE, il.ASSUME + ['task bodies and runtime actions atomic at the task level (primitives: E1 checks C07/C25)',
                              'single process, shared memory (hk-shm): write-back to a collection only in place',
                              'reference interpreter (engine/rt/ptgir.py) defines the valid-program semantics and the body function'])
 
 
 def replay(ctx, path, obj):
+    if obj.get('engine') == 'cosched':
+        return il.replay(ctx, path, obj)
     return ptgrun.replay(ctx, path, obj, ptgfam.c02_family('thorough')[0])
